@@ -50,7 +50,8 @@ def cases(tier, seed, shard, nshards, rng):
         elif kind == "exitstack":
             m = rng.randint(1, 4)
             yield {"kind": "exitstack", "spec": [[rng.choice(C14.KINDS), rng.choice(C14.BEHS)] for _ in range(m)],
-                   "body": rng.random() < 0.4, "susp": rng.choice([1, 2]), "body_susp": rng.choice([0, 1])}
+                   "body": rng.random() < 0.4, "susp": rng.choice([1, 2]), "body_susp": rng.choice([0, 1]),
+                   "via_aclose": rng.random() < 0.4}
         else:
             yield {"kind": "scoped", "c08": {"block": C08.gen_block(rng, 1), "flav": rng.choice(["async_class", "async_gen", "async_class_proxy"]),
                                             "keys": [rng.randrange(4) for _ in range(rng.randint(1, 7))]}}
@@ -304,21 +305,38 @@ def run_exitstack(case, stats):
         ents = [C14.mk_entry(k, b, i, log, susp, i) for i, (k, b) in enumerate(spec)]
         body_exc = C14.E("body")
 
+        async def fill(s):
+            for i, (k, _) in enumerate(spec):
+                e = ents[i]
+                if k in ("acm", "scm"):
+                    await s.enter_context(e)
+                elif k in ("apush", "spush"):
+                    s.push(e)
+                else:
+                    s.callback(e, i, kw=i)
+            log.append(("body",))
+            if case["body_susp"]:
+                await Suspend("body", case["body_susp"])
+            if body:
+                raise body_exc
+
         async def st():
+            if case.get("via_aclose") and not body:
+                # the stack is not used as a context manager: it is filled and then unwound by aclose() - the same
+                # unwinding as a with-block that ends normally, also when a cancellation arrives inside one of the exits
+                # (a failure or cancellation while it is being filled is handed to the stack by hand, as the with
+                # statement would)
+                s = A.ExitStack()
+                try:
+                    await fill(s)
+                except BaseException as exc:  # noqa: BLE001
+                    if not await s.__aexit__(type(exc), exc, exc.__traceback__):
+                        raise
+                else:
+                    await s.aclose()
+                return
             async with A.ExitStack() as s:
-                for i, (k, _) in enumerate(spec):
-                    e = ents[i]
-                    if k in ("acm", "scm"):
-                        await s.enter_context(e)
-                    elif k in ("apush", "spush"):
-                        s.push(e)
-                    else:
-                        s.callback(e, i, kw=i)
-                log.append(("body",))
-                if case["body_susp"]:
-                    await Suspend("body", case["body_susp"])
-                if body:
-                    raise body_exc
+                await fill(s)
 
         try:
             drive(st(), cancel_at=cancel_at, cancel_exc=exc)
